@@ -340,6 +340,13 @@ func (p *proverCtx) lenDefs(lv lvar) {
 		if !ok {
 			return
 		}
+		// a helper that hands back the rest of its argument (v, rest := consume(n, buf) with rest = buf[n:]):
+		// len(rest) = len(buf) - n
+		if base, low, ok := resliceOf(x); ok && lv.kind == 'l' {
+			d := p.varFor(lvar{v: base, kind: 'l'}).sub(p.lin(low))
+			p.addFact(linVar(lv).sub(d), "len(rest) = len(buf) - n: the helper returns buf[n:]")
+			p.addFact(d.sub(linVar(lv)), "len(rest) = len(buf) - n: the helper returns buf[n:]")
+		}
 		sc := cl.Call.StaticCallee()
 		if sc == nil || !inModule(sc) {
 			return
@@ -1335,11 +1342,14 @@ func (p *proverCtx) consumingLoop(phi *ssa.Phi) {
 	}
 	for k := 0; k < 2; k++ {
 		b0, next := phi.Edges[k], phi.Edges[1-k]
-		sl, ok := next.(*ssa.Slice)
-		if !ok || sl.X != ssa.Value(phi) || sl.Low == nil || sl.High != nil || sl.Max != nil {
+		var s ssa.Value
+		if sl, ok := next.(*ssa.Slice); ok && sl.X == ssa.Value(phi) && sl.Low != nil && sl.High == nil && sl.Max == nil {
+			s = sl.Low
+		} else if base, low, ok := resliceOf(next); ok && base == ssa.Value(phi) {
+			s = low // b = rest of consume(s, b)
+		} else {
 			continue
 		}
-		s := sl.Low
 		hdr := phi.Block()
 		ifi := lastIf(hdr)
 		if ifi == nil {
@@ -1896,4 +1906,52 @@ func digestSize(h ssa.Value, depth int) (int64, bool) {
 		}
 	}
 	return 0, false
+}
+
+// resliceOf: v is result #i of a call to an unexported helper every return of which gives, as result #i, the
+// re-slice param_k[param_j:] of its own parameters: the buffer argument and the offset argument at the call.
+func resliceOf(v ssa.Value) (base, low ssa.Value, ok bool) {
+	ex, isEx := v.(*ssa.Extract)
+	if !isEx {
+		return nil, nil, false
+	}
+	cl, isCall := ex.Tuple.(*ssa.Call)
+	if !isCall {
+		return nil, nil, false
+	}
+	h := plainHelper(cl.Call.StaticCallee())
+	if h == nil || len(h.Blocks) > 4 {
+		return nil, nil, false
+	}
+	argOf := func(x ssa.Value) ssa.Value {
+		prm, ok := x.(*ssa.Parameter)
+		if !ok {
+			return nil
+		}
+		for i, q := range h.Params {
+			if q == prm && i < len(cl.Call.Args) {
+				return cl.Call.Args[i]
+			}
+		}
+		return nil
+	}
+	rets := returnsOf(h)
+	if len(rets) == 0 {
+		return nil, nil, false
+	}
+	for _, r := range rets {
+		if ex.Index >= len(r.Results) {
+			return nil, nil, false
+		}
+		sl, isSl := retVal(r, ex.Index).(*ssa.Slice)
+		if !isSl || sl.Low == nil || sl.High != nil || sl.Max != nil {
+			return nil, nil, false
+		}
+		b, l := argOf(sl.X), argOf(sl.Low)
+		if b == nil || l == nil || (base != nil && (b != base || l != low)) {
+			return nil, nil, false
+		}
+		base, low = b, l
+	}
+	return base, low, true
 }
